@@ -287,11 +287,41 @@ def check_step_dedup(rep, crate):
         n += 1
         key = f'STEP-DEDUP:{b.path}'
         if is_tag(t, 'dedup') and (is_tag(T.unroot(t[1]), 'kmerge') or is_tag(T.unroot(t[1]), 'merge')):
-            rep.ok('STEP-DEDUP', key, loc(b.raw), f'{T.show(t)[:160]}', fn=b.path)
+            inner = T.unroot(t[1])
+            comps_ok, why = _all_components(inner, b)
+            if comps_ok:
+                rep.ok('STEP-DEDUP', key, loc(b.raw), f'{T.show(t)[:160]}: {why}', fn=b.path)
+            else:
+                rep.bad('STEP-DEDUP', key, loc(b.raw), f'{T.show(t)[:200]}', 'the steps of every component, each exactly once', fn=b.path,
+                        direction=why)
         else:
             rep.bad('STEP-DEDUP', key, loc(b.raw), f'merged steps are not deduplicated: {T.show(t)[:200]}', 'dedup(kmerge/merge(..))', fn=b.path,
                     direction='not strictly increasing when two components step together')
     return n
+
+
+def _all_components(inner, b):
+    """the merged iterators are the steps of every component of the composite, each once"""
+    if inner[0] == 'merge':
+        srcs = []
+        for side in (inner[1], inner[2]):
+            side = T.unroot(side)
+            if is_tag(side, 'elems') and is_tag(side[1], 'call') and side[1][1].endswith('::steps_iter'):
+                srcs.append(side[1][2][0])
+            else:
+                return False, f'a merged operand is not a component\'s steps: {T.show(side)[:80]}'
+        want = {('f', P(0), '0'), ('f', P(0), '1')}
+        if set(srcs) == want and len(srcs) == 2:
+            return True, 'steps of both components'
+        return False, f'merged steps come from {[T.show(x) for x in srcs]}: a component\'s steps are missing (its step offsets drop out of every search space)'
+    # kmerge(map(elems(collection), λc. steps_iter(c)))
+    m = T.unroot(inner[1])
+    if is_tag(m, 'map') and is_tag(m[1], 'elems') and is_tag(m[2], 'lam'):
+        body = T.unroot(m[2][2])
+        if is_tag(body, 'call') and body[1].endswith('::steps_iter') and body[2][0] == T.bv(m[2][1]):
+            return True, 'steps of every element of the collection'
+        return False, f'components are mapped through {T.show(body)[:80]}'
+    return False, 'an adaptor other than iter().map() sits between the components and the merge (components can be dropped)'
 
 
 def check_step_conversion(rep, crate):
